@@ -55,7 +55,7 @@ func VerifHarness_C07_permission_timers() {
 // Channel bindings: binding timer gets the channel timeout, the peer's permission the permission
 // timeout (not swapped); re-bind restarts both; expiry frees number and peer.
 //
-//verif:props=C07,C08,C01 replay=model bounds="all positive timeouts, all valid channel numbers, IPv4/IPv6 peers"
+//verif:props=C07,C08,C01,C02,C14 replay=model bounds="all positive timeouts, all valid channel numbers, IPv4/IPv6 peers"
 func VerifHarness_C07_channel_timers() {
 	a, _, _ := VNewAlloc(nil)
 	log := &VLogger{}
@@ -91,6 +91,8 @@ func VerifHarness_C07_channel_timers() {
 	vAssert(vTimerDeadline(cb.lifetimeTimer) == c1+int64(ct2), "C07.rebind_deadline_is_now_plus_timeout")
 	vAssert(vAnd(vTimerArmed(perm.lifetimeTimer), vTimerDur(perm.lifetimeTimer) == pt2), "C07.rebind_restarts_permission_timeout")
 	vAssert(vTimerDeadline(perm.lifetimeTimer) == c1+int64(pt2), "C01.permission_of_a_rebound_peer_expires_after_the_permission_timeout")
+	vAssert(vTimerDeadline(perm.lifetimeTimer) == c1+int64(pt2), "C02.permission_of_a_rebound_peer_expires_after_the_permission_timeout")
+	vAssert(vTimerDeadline(cb.lifetimeTimer) == c1+int64(ct2), "C14.a_channel_refresh_buys_the_full_channel_timeout")
 	vAssert(len(a.permissions) == 1, "C07.rebind_adds_no_permission")
 	// expiry of the binding frees the number and the peer
 	vFire(cb.lifetimeTimer)
